@@ -33,7 +33,21 @@ int gstuffing_v1(char *data, int size, char *outdata)
         }
     }
 
-    *outdata++ = crc;
+    switch ((char)crc)
+    {
+    case GSTUFF_START_V1:
+        *outdata++ = GSTUFF_STUB_V1;
+        *outdata++ = GSTUFF_STUB_START_V1;
+        break;
+
+    case GSTUFF_STUB_V1:
+        *outdata++ = GSTUFF_STUB_V1;
+        *outdata++ = GSTUFF_STUB_STUB_V1;
+        break;
+
+    default:
+        *outdata++ = crc;
+    }
     *outdata++ = GSTUFF_START_V1;
 
     return (int)(outdata - outstrt);
